@@ -2,6 +2,8 @@ package main
 
 import (
 	"fmt"
+	"os"
+	"path/filepath"
 	"time"
 )
 
@@ -82,7 +84,20 @@ func init() {
 			if *flagRuns > 0 {
 				runs = *flagRuns
 			}
-			fanOut(a, b.race, true, baseArgs(s, b), runs, numWorkers(), s.procs)
+			// Sequential prints of every module source in a process of their own.
+			raw, herr := makeRefRaw(b.race, true, b, s)
+			if herr != "" {
+				a.harness = append(a.harness, herr)
+				return
+			}
+			refPath := filepath.Join(scratch, "ref.json")
+			os.WriteFile(refPath, raw, 0o644)
+			maxRuns := "40"
+			if tier == "thorough" {
+				maxRuns = "1500"
+			}
+			args := append(baseArgs(s, b), "-ref", refPath, "-maxruns", maxRuns)
+			fanOut(a, b.race, true, args, runs, numWorkers(), s.procs)
 		},
 	}
 }
